@@ -196,8 +196,10 @@ Proof.
     assert (Ecp : s_cbPerm st2 = order).
     { rewrite F8. apply copy_into_same_length. destruct (leafp_length _ _ HLp) as (_ & L2 & _). fold cells in L2. fold order in L2. lia. }
     assert (HInv : inverse n order cbInv) by (eapply inv_into_inverse; [exact HI|exact (proj2 HLp)|exact A]).
-    assert (Ecbp : s_cbPath st2 = copy_into (s_cbPath st) (s_path st)) by reflexivity.
-    assert (Ecbo : s_cbOrb st2 = new n) by reflexivity.
+    assert (Ecbp : s_cbPath st2 = copy_into (s_cbPath st) (s_path st)).
+    { unfold st2, new_best. cbn [bump s_count]. destruct (S (s_count st) =? 1); reflexivity. }
+    assert (Ecbo : s_cbOrb st2 = new n).
+    { unfold st2, new_best. cbn [bump s_count]. destruct (S (s_count st) =? 1); reflexivity. }
     assert (Eflp : s_flPath st2 = if S (s_count st) =? 1 then copy_into (s_flPath st) (s_path st) else s_flPath st).
     { unfold st2, new_best. cbn [bump s_count]. destruct (S (s_count st) =? 1); reflexivity. }
     assert (HLn : length (s_path st) <= n).
@@ -212,7 +214,7 @@ Proof.
       rewrite (Permutation_length (no_perm _ _ _ _ _ _ HN)), seq_length in H1.
       destruct (no_big _ _ _ _ _ _ HN) as (e & sz & HB).
       destruct (first_big_spec _ _ _ _ (no_ne _ _ _ _ _ _ HN) HB) as (b0 & c0 & a0 & EP0 & _ & _ & _ & _ & Hb0).
-      assert (fns P < length P) by (rewrite EP0, app_length; simpl; lia). lia. }
+      assert (length P = length b0 + S (length a0)) by (rewrite EP0, app_length; reflexivity). lia. }
     assert (Hfcp : forall dst : list nat, length dst = n -> firstn (length (s_path st)) (copy_into dst (s_path st)) = s_path st).
     { intros dst Hd. unfold copy_into. rewrite firstn_app_le' by (rewrite firstn_length; lia).
       rewrite firstn_firstn_le by lia. apply firstn_all2. lia. }
